@@ -283,15 +283,16 @@ def predicted_insert(sheet, kind, index):
 
 
 class Walk:
-    def __init__(self, ctx, cssutils, mode, rng, focus=None):
+    def __init__(self, ctx, cssutils, mode, rng, focus=None, raising=True):
         self.ctx, self.c, self.mode, self.rng, self.focus = ctx, cssutils, mode, rng, focus
+        self.raising = raising  # False: errors are logged, a refused op returns silently (the structure oracles still apply)
         self.removed = []
         self.ops = []
 
     def start(self, seed_text):
-        core.canonical_state(self.c)
+        core.canonical_state(self.c, raising=self.raising)
         self.sheet = self.c.parseString(seed_text)
-        self.case = {'kind': 'walk', 'seed': seed_text, 'ops': self.ops, 'focus': self.focus}
+        self.case = {'kind': 'walk', 'seed': seed_text, 'ops': self.ops, 'focus': self.focus, 'raising': self.raising}
 
     def report(self, oracle, detail, features=()):
         self.ctx.violation(oracle, dict(self.case, failed_at=len(self.ops) - 1), detail, features=features)
@@ -423,7 +424,7 @@ class Walk:
         ctx = self.ctx
         op = op or random_op(self.rng, self.sheet, self.focus)
         self.ops.append(op)
-        core.canonical_state(self.c)
+        core.canonical_state(self.c, raising=self.raising)
         before = snapshot(self.sheet) if self.mode in ('c11', 'all') else None
         pred = None
         if op[0] == 'insert' and self.mode in ('c09', 'all'):
@@ -433,10 +434,14 @@ class Walk:
                 pred = None  # needs the prefix to be declared: namespace business (C15)
             if op[1] == 'namespace':
                 pred = None if pred else pred
+            if not self.raising:
+                pred = None  # a refusal is silent in log mode: only the resulting structure is judged
         names_before = type_names(self.sheet.cssRules)
         outcome, exc = self.apply(op)
         ctx.count('op.' + op[0])
         ctx.count('outcome.' + outcome)
+        if not self.raising:
+            ctx.count('log-mode.ops')
         if outcome == 'crash':
             self.report(self.mode_oracle('exception'), {'tb': core.short_tb(exc), 'op': op}, ())
             return False
